@@ -103,6 +103,7 @@ type txn struct {
 	xid        string // XA branch id when this is an XA transaction
 	xaState    string // ACTIVE | IDLE | PREPARED
 	writes     []Write
+	readOnly   bool // START TRANSACTION READ ONLY
 }
 
 type savepoint struct {
